@@ -34,9 +34,9 @@ def all_seqs(V):
 
 def structs_for(tier):
     cat = catalogue("quick")
-    keep = {"chain3-perm", "triangle", "nested", "isolated", "chain4", "star", "cycle4", "disconnected", "tri+pendant"}
+    keep = {"chain3-perm", "triangle", "nested", "isolated", "chain4", "star", "cycle4", "disconnected", "tri+pendant", "cycle5"}
     if tier == "thorough":
-        keep |= {"chain3", "dup", "single", "cycle5"}
+        keep |= {"chain3", "dup", "single"}
     return [s for s in cat if s["name"] in keep]
 
 
@@ -165,7 +165,7 @@ def run(ctx, canary=False):
 def replay_history(ctx, s, e, rng, paths):
     V = s["ord"]
     dom_order = V if rng.random() < 0.6 else list(reversed(V))
-    total = rng.choice([1.0, 10.0, 3.5, 250.0, 2e-9])
+    total = rng.choice([1.0, 10.0, 3.5, 250.0, 2e-9, 3e-13])
     order = list(V)
     rng.shuffle(order)
     info = {"structure": s["name"], "cliques": s["cliques"], "sizes": s["sz"], "dom_order": dom_order, "elim_order": order,
